@@ -229,6 +229,43 @@ def _gym_adapters(ctx):
                 # the adapter keeps the auto-reset state; a Gymnasium user calls reset() next
                 obs, _ = g.reset(seed=int(rng.integers(0, 1000)))
                 st = {"s": int(env0.inits[0]), "clock": 0, "noise": 0, "counters": [0]}
+    # (c) LeraxToGymnaxEnv(TimeLimit(finite MDP, n)).step_env: `done` is raised for truncation as well as for
+    #     termination, and the state returned after a done step is a fresh initial state (clock and counter 0)
+    try:
+        from lerax.compatibility.gymnax import LeraxEnvParams, LeraxToGymnaxEnv
+        for rep in range(ctx.budget(2, 8)):
+            env0 = random_tabular(rng, n_noise=1, p_term=0.1, p_trunc=0.0)
+            env0 = eqx.tree_at(lambda e: e.inits, env0, env0.inits[:1])
+            n = int(rng.integers(1, 5))
+            desc = [{"w": "timeLimit", "n": n}]
+            tab = env0.describe()
+            gx = LeraxToGymnaxEnv(TimeLimit(env0, n))
+            params = LeraxEnvParams()
+            key = jr.key(int(rng.integers(0, 10_000)))
+            obs, gstate = gx.reset_env(key, params)
+            st = {"s": int(env0.inits[0]), "clock": 0, "noise": 0, "counters": [0]}
+            for t in range(ctx.budget(25, 60)):
+                key, k = jr.split(key)
+                a = int(rng.integers(0, env0.action_space.n))
+                o, gstate, r, done, _ = gx.step_env(k, gstate, jnp.asarray(a), params)
+                m = ctx.drv.call("tab_step", tab=tab, stack=desc, state=st, action=float(a),
+                                 init=int(env0.inits[0]), noise=0)
+                c = {"kind": "lerax-to-gymnax-step", "time_limit": n, "t": t, "state": st, "action": a,
+                     "impl": {"obs": np.asarray(o), "reward": float(r), "done": bool(done)}, "model": m}
+                ctx.case({"k": "l2gx", "rep": rep, "t": t, "st": st, "a": a}, True)
+                ctx.count("gym-adapter:lerax-to-gymnax")
+                if m["truncate"] and not m["terminal"]:
+                    ctx.count("gym-adapter:gymnax-truncated-only")
+                if not ctx.close(float(r), m["reward"]):
+                    ctx.phi_fail("reward_is_transition_reward", c, key="gymnax_adapter:reward")
+                elif bool(done) != (m["terminal"] or m["truncate"]):
+                    ctx.phi_fail("truncate_flag" if m["truncate"] else "terminal_flag", c, key="gymnax_adapter:done")
+                elif not ctx.close(np.asarray(o, np.float64).ravel(), m["obs"]):
+                    ctx.phi_fail("done_returns_fresh_initial" if (m["terminal"] or m["truncate"])
+                                 else "continue_returns_successor", c, key="gymnax_adapter:observation")
+                st = m["state"]
+    except ImportError as e:
+        ctx.note(f"gymnax adapters not importable: {e}"[:120])
     for rep in range(ctx.budget(2, 6)):
         seed = 0 if rep == 0 else int(rng.integers(0, 10_000))
         ad = GymToLeraxEnv(gymnasium.make("CartPole-v1"))
